@@ -37,12 +37,21 @@ let handle kind c =
     check_eq "is-stack" string_of_bool (is_stack name) is;
     (* property oracles on the implementation's output *)
     if blen name > limit then prop "length-bound" (Printf.sprintf "len=%d" (blen name));
+    (* expansion keeps every line (theorem C15_decode_total): same number of newlines *)
+    let nls b = List.length (List.filter (fun x -> x = nl) b) in
+    if nls dec <> nls name then
+      prop "decode-keeps-lines" (Printf.sprintf "the name has %d lines, its expansion %d; expansion ends %s" (nls name + 1) (nls dec + 1)
+                                   (show_b (List.filteri (fun i _ -> i >= blen dec - 14) dec)));
     let truncated = blen (encode_raw prefix frames) > limit in
     if truncated then begin
       if not (blen name = limit && ends_with name marker) then
         prop "truncation-marked" (Printf.sprintf "untruncated-length=%d len=%d tail=%s"
                                     (blen (encode_raw prefix frames)) (blen name)
                                     (show_b (List.filteri (fun i _ -> i >= blen name - 12) name)));
+      (* a truncated name stays visibly marked when expanded (theorem C15_decode_truncated_keeps_marker) *)
+      if not (ends_with dec marker) then
+        prop "truncation-marked-after-expansion"
+          ("the expansion of a truncated name does not end with the marker: " ^ show_b (List.filteri (fun i _ -> i >= blen dec - 14) dec));
       (* complete lines that survived the cut expand to the lines of the uncompressed rendering *)
       let raw = string_of_bytes (encode_raw prefix frames) in
       let kept = String.sub raw 0 (limit - List.length marker) in
@@ -74,6 +83,9 @@ let handle kind c =
       check_eq "decode" show_b (decode_stack s) dec;
       check_eq "is-stack" string_of_bool (is_stack s) is;
       if (not (has_nl s)) && dec <> s then prop "decode-identity-on-plain" (show_b s ^ " -> " ^ show_b dec);
+      let nls b = List.length (List.filter (fun x -> x = nl) b) in
+      if nls dec <> nls s then
+        prop "decode-keeps-lines" (Printf.sprintf "%s has %d lines, its expansion %s has %d" (show_b s) (nls s + 1) (show_b dec) (nls dec + 1));
       if is <> has_nl s then prop "is-stack-iff-newline" (show_b s)
     end
   | "cache" ->
